@@ -1,12 +1,15 @@
 // C11: the explanation of the difference-logic solver is a valid theory clause.
 // Real: STPGraphManager<SafeInt>::findExplanation (label-correcting DFS + backtracking over the predecessor edges) with
-// STPStore::getEdge/vertexNum, STPMapper::getAssignment, SafeInt::operator+ / <= / >, EdgeRef/VertexRef comparison, the
-// libstdc++ std::vector code of the two local vectors (visited, length), of store.edges, mapper.edgeRefToAsgn and
-// graph.outgoing (operator[], begin/end, fill constructors), opensmt::vec<PtAsgn>::push.
-// Model: std::stack<VertexRef> (a std::deque underneath) is a fixed-capacity array behind its constructor / push / top / pop /
-// empty / destructor; the allocations of the two local vectors hand out static typed buffers.
+// STPStore::getEdge/vertexNum, STPMapper::getAssignment, SafeInt <= / >, EdgeRef/VertexRef comparison, the libstdc++
+// std::vector code of the two local vectors (visited, length: fill constructors, operator[], destructors), of store.edges,
+// mapper.edgeRefToAsgn and graph.outgoing (operator[], begin/end, iterators), opensmt::vec<PtAsgn>::push.
+// Models: std::stack<VertexRef> (a std::deque underneath) is a fixed-capacity array behind its constructor / push / top / pop /
+// empty / destructor; the allocations of the two local vectors hand out static typed buffers; SafeInt::operator+ is the
+// addition without the overflow exception (asserted unreachable: costs are tiny).
 // The state (store edges, assignments, adjacency lists) is written into static typed buffers that the real vector objects
 // point at - the graph is NOT built through setTrue/addEdge (their vector growth is what did not finish in stp_getconflict).
+// Graph shape: every vertex v owns KOUT edge slots v*KOUT .. v*KOUT+KOUT-1 (its outgoing list, in this order), the first cnt[v] of them
+// are asserted edges with symbolic end vertex, cost, setTime and literal; the store's last slot is the edge to explain.
 #include "verif.h"
 #include "tsolvers/stpsolver/SafeInt.h"
 #include "tsolvers/stpsolver/STPGraphManager.h"
@@ -17,26 +20,38 @@ using GM = STPGraphManager<SafeInt>;
 #ifndef NV
 #define NV 4            // vertices 0..NV-1 (0 is the 'zero' vertex of the store, nothing special for the search)
 #endif
-#ifndef NE
-#define NE 5            // assigned edges live in slots 0..NE-1 of the store, slot NE is the edge to explain
+#ifndef KOUT
+#define KOUT 2             // at most KOUT outgoing asserted edges per vertex
 #endif
 #ifndef CMAX
 #define CMAX 8          // costs in -CMAX..CMAX
 #endif
+#ifndef MAXPOPS
+#define MAXPOPS 8       // runs in which the search takes at most MAXPOPS vertices from its stack
+#endif
+#define NE (NV * KOUT)     // edge slots of the vertices; slot NE is the edge to explain
 #define SCAP 12         // capacity of the stack model
 
 // ---------------------------------------------------------------- std::stack<VertexRef> as a fixed array
 using Stack = std::stack<VertexRef>;
-static VertexRef stk[SCAP]; static int sp; static int stack_live;
+static VertexRef stk[SCAP]; static int sp; static int stack_live; static int pops;
 static uint32_t target_vertex; static int target_pops;      // observation only: how often the target vertex was taken from the stack
-extern "C" void stub_stack_ctor(Stack *) { VASSERT(stack_live == 0, "bound: one stack at a time"); stack_live = 1; sp = 0; }
+extern "C" void stub_stack_ctor(Stack *) { VASSERT(stack_live == 0, "bound: one stack at a time"); stack_live = 1; sp = 0; pops = 0; }
 extern "C" void stub_stack_dtor(Stack *) { stack_live = 0; }
 extern "C" void stub_stack_push(Stack *, VertexRef const & v) {
+#ifdef PROVE_BOUNDS
     VASSERT(sp < SCAP, "bound: stack depth within the model's capacity");
+#else
+    VASSUME(sp < SCAP);         // bound: runs whose stack stays within the model's capacity
+#endif
     if (sp < SCAP) { stk[sp] = v; sp++; }
 }
 extern "C" VertexRef & stub_stack_top(Stack *) {
     VASSERT(sp > 0, "top() on a non-empty stack");
+    pops++;
+#ifndef PROVE_BOUNDS
+    VASSUME(pops <= MAXPOPS);   // bound: runs with at most MAXPOPS pops (PROVE_BOUNDS: the unwinding assertion decides it instead)
+#endif
     VertexRef & r = stk[sp > 0 ? sp - 1 : 0];
     if (r.x == target_vertex) target_pops++;
     return r;
@@ -63,81 +78,72 @@ union RawStore { STPStore<SafeInt> s; RawStore() {} ~RawStore() {} };
 union RawMapper { STPMapper<SafeInt> m; RawMapper() {} ~RawMapper() {} };
 union RawMgr { GM g; RawMgr() {} ~RawMgr() {} };
 union RawAdj { std::vector<EdgeRef> v[NV]; RawAdj() {} ~RawAdj() {} };
-static RawStore S; static RawMapper M; static RawMgr G; static RawAdj adj;
+union RawAsgns { PtAsgn a[NE + 1]; RawAsgns() {} ~RawAsgns() {} };           // (no element constructors: no initialisation loop)
+union RawResult { vec<PtAsgn> v; RawResult() {} ~RawResult() {} };              // no destructor runs: the buffer is static
+union RawResBuf { PtAsgn buf[NV + 2]; RawResBuf() {} ~RawResBuf() {} };
+static RawStore S; static RawMapper M; static RawMgr G; static RawAdj adj; static RawAsgns A; static RawResult R; static RawResBuf RB;
 static Edge<SafeInt> edge_buf[NE + 1];
-static PtAsgn asgn_buf[NE + 1];
-static EdgeRef out_buf[NV][NE];
-#define RCAP (NE + 1)
-static PtAsgn result_buf[RCAP];
-union RawResult { vec<PtAsgn> v; RawResult() {} ~RawResult() {} };     // no destructor runs: the buffer is static
-static RawResult R;
+static EdgeRef out_buf[NV][KOUT];
 static long dummy_logic;
+#define asgn_buf A.a
+#define T NE
 
 // shadow copy for the checking side
-static unsigned n_asg;
+static unsigned cnt[NV];
 static unsigned e_from[NE + 1], e_to[NE + 1], e_time[NE + 1];
 static int e_cost[NE + 1];
+static bool e_present[NE + 1];
 
-static unsigned out_cnt[NV];
 static void build_state(bool target_assigned) {
     new (&S.s) STPStore<SafeInt>();
     new (&M.m) STPMapper<SafeInt>(*reinterpret_cast<ArithLogic const *>(&dummy_logic), S.s);
     new (&G.g) GM(S.s, M.m);
     S.s.vertices = NV;
-    n_asg = nondet_u8(); VASSUME(n_asg >= 1 && n_asg <= NE);
+    for (unsigned v = 0; v < NV; v++) { cnt[v] = nondet_u8(); VASSUME(cnt[v] <= KOUT); }
     for (unsigned i = 0; i <= NE; i++) {
-        e_from[i] = nondet_u8() & 3; e_to[i] = nondet_u8() & 3;
-        VASSUME(e_from[i] < NV && e_to[i] < NV && e_from[i] != e_to[i]);                      // an atom x - y <= c relates two different vertices
-        int c = (int)(nondet_u8() % (2 * CMAX + 1)) - CMAX;
-        e_cost[i] = c;
-        bool assigned = i < n_asg || (i == NE && target_assigned);
+        if (i < NE) { e_from[i] = i / KOUT; e_present[i] = (i % KOUT) < cnt[i / KOUT]; }
+        else { e_from[i] = nondet_u8(); VASSUME(e_from[i] < NV); e_present[i] = target_assigned; }
+        e_to[i] = nondet_u8(); VASSUME(e_to[i] < NV && e_to[i] != e_from[i]);   // an atom x - y <= c relates two different vertices
+        unsigned cu = nondet_u8(); VASSUME(cu <= 2 * CMAX);
+        e_cost[i] = (int)cu - CMAX;
         e_time[i] = nondet_u8() & 7;
-        VASSUME(i == NE || (e_time[i] != 0) == assigned);   // setTime != 0 exactly for the edges that hold; the target holds (asserted or deduced)
-        VASSUME(i != NE || e_time[i] != 0);
+        // setTime != 0 exactly for the edges that hold; the target holds (asserted or deduced)
+        VASSUME((e_time[i] != 0) == (e_present[i] || i == NE));
         edge_buf[i].from = VertexRef{e_from[i]}; edge_buf[i].to = VertexRef{e_to[i]}; edge_buf[i].neg = EdgeRef_Undef;
-        edge_buf[i].cost = SafeInt((ptrdiff_t)c); edge_buf[i].setTime = e_time[i];
-        // assignments: the literal of edge i is over the atom 10+i, either polarity; only explicitly asserted edges have one
-        asgn_buf[i] = assigned ? PtAsgn(PTRef{10 + i}, nondet_bool() ? l_True : l_False) : PtAsgn_Undef;
+        edge_buf[i].cost = SafeInt((ptrdiff_t)e_cost[i]); edge_buf[i].setTime = e_time[i];
+        // the literal of edge i is over the atom 10+i, either polarity; only explicitly asserted edges have one
+        asgn_buf[i] = e_present[i] ? PtAsgn(PTRef{10 + i}, nondet_bool() ? l_True : l_False) : PtAsgn(PTRef_Undef, l_Undef);
     }
     auto & ev = S.s.edges; ev._M_impl._M_start = edge_buf; ev._M_impl._M_finish = ev._M_impl._M_end_of_storage = edge_buf + NE + 1;
     // getAssignment answers PtAsgn_Undef beyond the vector's size: the vector covers the target's slot or stops before it
     unsigned asz = (target_assigned || nondet_bool()) ? NE + 1 : NE;
     auto & av = M.m.edgeRefToAsgn; av._M_impl._M_start = asgn_buf; av._M_impl._M_finish = av._M_impl._M_end_of_storage = asgn_buf + asz;
-    // adjacency: the assigned edges (and, if asserted, the target) in their list order; list order = slot order
-    for (unsigned v = 0; v < NV; v++) out_cnt[v] = 0;
-    for (unsigned i = 0; i <= NE; i++) {
-        bool assigned = i < n_asg || (i == NE && target_assigned);
-        if (!assigned) continue;
-        unsigned f = e_from[i];
-        for (unsigned v = 0; v < NV; v++) if (v == f) { if (out_cnt[v] < NE) { out_buf[v][out_cnt[v]] = EdgeRef{i}; out_cnt[v]++; } }
-    }
     for (unsigned v = 0; v < NV; v++) {
-        VASSUME(out_cnt[v] <= NE);      // (with the target asserted there may be 6 edges; keep the lists within their buffers)
-        auto & ov = adj.v[v]; ov._M_impl._M_start = out_buf[v]; ov._M_impl._M_finish = out_buf[v] + out_cnt[v]; ov._M_impl._M_end_of_storage = out_buf[v] + NE;
+        for (unsigned k = 0; k < KOUT; k++) out_buf[v][k] = EdgeRef{v * KOUT + k};
+        auto & ov = adj.v[v]; ov._M_impl._M_start = out_buf[v]; ov._M_impl._M_finish = out_buf[v] + cnt[v]; ov._M_impl._M_end_of_storage = out_buf[v] + KOUT;
     }
     auto & og = G.g.graph.outgoing; og._M_impl._M_start = adj.v; og._M_impl._M_finish = og._M_impl._M_end_of_storage = adj.v + NV;
 }
 
-static vec<PtAsgn> & result_vector() { vec<PtAsgn> & v = R.v; v.data = result_buf; v.cap = RCAP; v.sz = 0; return v; }
+static vec<PtAsgn> & result_vector() { vec<PtAsgn> & v = R.v; v.data = RB.buf; v.cap = NV + 2; v.sz = 0; return v; }
 
 // ---------------------------------------------------------------- deduced edge
 extern "C" void h_stp_explain_deduced() {
     build_state(false);
-    unsigned const T = NE;
     // what the deduction mechanism (findConsequences after setTrue, on a consistent graph) guarantees:
     // (1) the edges that held when the target was deduced have no negative cycle: a potential function exists for them
     unsigned pi[NV];
-    for (unsigned v = 0; v < NV; v++) { pi[v] = nondet_u8(); VASSUME(pi[v] <= 3 * CMAX); }
-    for (unsigned i = 0; i < NE; i++) if (i < n_asg && e_time[i] <= e_time[T])
+    for (unsigned v = 0; v < NV; v++) { pi[v] = nondet_u8(); VASSUME(pi[v] <= (NV - 1) * CMAX); }
+    for (unsigned i = 0; i < NE; i++) if (e_present[i] && e_time[i] <= e_time[T])
         VASSUME(e_cost[i] + (int)pi[e_from[i]] - (int)pi[e_to[i]] >= 0);
-    // (2) a path from -> to over edges that held at that time, of total cost <= the target's cost (<= 3 edges: with 4 vertices
-    //     and no negative cycle a shortest path is simple)
+    // (2) a path from -> to over edges that held at that time, of total cost <= the target's cost (<= NV-1 edges: without a
+    //     negative cycle a shortest path is simple)
     unsigned k = nondet_u8(), p0 = nondet_u8(), p1 = nondet_u8(), p2 = nondet_u8();
-    VASSUME(k >= 1 && k <= NV - 1 && p0 < n_asg && p1 < n_asg && p2 < n_asg);
-    VASSUME(e_from[p0] == e_from[T] && e_time[p0] <= e_time[T]);
+    VASSUME(k >= 1 && k <= NV - 1 && k <= 3 && p0 < NE && p1 < NE && p2 < NE);
+    VASSUME(e_present[p0] && e_from[p0] == e_from[T] && e_time[p0] <= e_time[T]);
     int total = e_cost[p0]; unsigned end = e_to[p0];
-    if (k >= 2) { VASSUME(e_from[p1] == end && e_time[p1] <= e_time[T]); total += e_cost[p1]; end = e_to[p1]; }
-    if (k >= 3) { VASSUME(e_from[p2] == end && e_time[p2] <= e_time[T]); total += e_cost[p2]; end = e_to[p2]; }
+    if (k >= 2) { VASSUME(e_present[p1] && e_from[p1] == end && e_time[p1] <= e_time[T]); total += e_cost[p1]; end = e_to[p1]; }
+    if (k >= 3) { VASSUME(e_present[p2] && e_from[p2] == end && e_time[p2] <= e_time[T]); total += e_cost[p2]; end = e_to[p2]; }
     VASSUME(end == e_to[T] && total <= e_cost[T]);
 
     target_vertex = e_to[T]; target_pops = 0;
@@ -150,11 +156,11 @@ extern "C" void h_stp_explain_deduced() {
     unsigned n = (unsigned)v.size();
     VASSERT(n >= 1, "the explanation is not empty");
     VASSERT(n <= NV, "bound: explanation of at most NV literals");
-    int sum = 0; unsigned at = e_to[T]; unsigned first_edge = 0, direct_long = NE + 1;
+    int sum = 0; unsigned at = e_to[T]; unsigned first_edge = 0;
     for (unsigned j = 0; j < NV; j++) if (j < n) {
         unsigned idx = v[j].tr.x - 10;
-        VASSERT(idx < n_asg, "every explanation literal belongs to an asserted edge");
-        if (idx >= n_asg) return;
+        VASSERT(idx < NE && e_present[idx < NE ? idx : 0], "every explanation literal belongs to an asserted edge");
+        if (!(idx < NE && e_present[idx])) return;
         VASSERT(v[j] == asgn_buf[idx], "every explanation literal is the literal the edge was asserted with");
         VASSERT(e_time[idx] <= e_time[T], "every explanation edge held when the target was deduced (setTime <= target's)");
         VASSERT(e_to[idx] == at, "the explanation edges are consecutive (edge j ends where edge j-1 starts, edge 0 ends at the target's end)");
@@ -164,19 +170,18 @@ extern "C" void h_stp_explain_deduced() {
     VASSERT(sum <= e_cost[T], "the explanation path is at most as long as the target's cost (the clause is valid in difference logic)");
     VWITNESS("deduced-edge-explained");
     if (n == 2) { VWITNESS("explained-by-a-2-edge-path"); }
-    if (n == 3) { VWITNESS("explained-by-a-3-edge-path"); }
     // a too long direct edge from -> to that the search meets first (listed after the first edge of the returned path, so it is
     // on top of the stack): the target is popped with length > cost and the search must go on
-    for (unsigned i = 0; i < NE; i++) if (i < n_asg && e_from[i] == e_from[T] && e_to[i] == e_to[T] && e_time[i] <= e_time[T] && e_cost[i] > e_cost[T] && i > first_edge) direct_long = i;
-    if (n == 2 && direct_long <= NE) { VWITNESS("longer-path-reaches-the-target-first"); }
-    if (target_pops >= 2) { VWITNESS("target-popped-twice"); }
+    bool direct_long = false;
+    for (unsigned i = 0; i < NE; i++) if (e_present[i] && e_from[i] == e_from[T] && e_to[i] == e_to[T] && e_time[i] <= e_time[T] && e_cost[i] > e_cost[T] && i > first_edge) direct_long = true;
+    if (n == 2 && direct_long && target_pops >= 2) { VWITNESS("longer-path-reaches-the-target-first"); }
 }
 
 // ---------------------------------------------------------------- explicitly asserted edge: its own literal
 extern "C" void h_stp_explain_asserted() {
     build_state(true);
     vec<PtAsgn> & v = result_vector();
-    G.g.findExplanation(EdgeRef{NE}, v);
-    VASSERT(v.size() == 1 && v[0] == asgn_buf[NE], "an asserted edge is explained by its own literal");
+    G.g.findExplanation(EdgeRef{T}, v);
+    VASSERT(v.size() == 1 && v[0] == asgn_buf[T], "an asserted edge is explained by its own literal");
     VWITNESS("asserted-edge");
 }
